@@ -633,3 +633,4 @@ PROPS["C09"]["rule"] += " After every operation an embedded ('evaluate!') rule i
 PROPS["C15"]["rule"] += " Schedules in the sys.System part are either recurring or bounded (a year-bounded cron expression with exactly one occurrence); a bounded rule must run once, never twice, and a restart after its occurrence must still load the location."
 PROPS["C13"]["rule"] += " Half of the cases run with the real in-process cron behind the state hooks (never started: parsing and book-keeping only), and a quarter of the rule/fact cases carry a generated schedule (cron expressions built from a hostile field alphabet, one-shot forms). The canary includes a fact that depends (deleteWith) on another canary fact."
 PROPS["C13"]["rule"] += " System cases run with and without CheckExistence. Accepted facts and rules — those with generated ids and property facts (`!`-keys) included — are removed again by the id the call returned (removal must succeed) before the canary transcript is compared with a fresh twin; only access keys and the location's off switch are exempt."
+PROPS["C07"]["rule"] += " Half of the histories run with the cron state hooks installed (as sys.System does), and histories may clear the location, which must succeed whatever has expired in it and leave storage empty."
